@@ -17,20 +17,24 @@ use crate::tamper::{self, HashTamper, ListOp};
 fn make<C: GenericConfig<D, F = F>>(seed: u64, case: u64) -> Result<Proven<C>, String> {
     let bset = gen::boundary_set();
     let mut rng = crate::mon::case_rng(seed, 16_001, case);
-    let opts = GenOpts { n_ops: rng.gen_range(1..40), lookups: case % 4 == 1, hashing: case % 5 == 0, extension: true, max_table_len: 30 };
+    let opts = GenOpts { n_ops: if rng.gen_bool(0.5) { rng.gen_range(1..40) } else { rng.gen_range(40..260) }, lookups: case % 4 == 1, hashing: case % 5 == 0, extension: true, max_table_len: 30 };
     let (prog, inputs) = circ::gen_program(&mut rng, &bset, &opts);
     let mut config = circ::fast_config();
     // small LDE domains + many queries force repeated indices and shared cosets
     config.fri_config.num_query_rounds = rng.gen_range(20..=84);
     config.fri_config.proof_of_work_bits = rng.gen_range(0..4);
     config.fri_config.cap_height = rng.gen_range(0..=3);
-    config.fri_config.reduction_strategy = match rng.gen_range(0..6) {
+    config.fri_config.reduction_strategy = match rng.gen_range(0..10) {
         0 => FriReductionStrategy::ConstantArityBits(1, 0),
         1 => FriReductionStrategy::ConstantArityBits(2, 1),
-        2 => FriReductionStrategy::ConstantArityBits(3, 0),
+        2 => FriReductionStrategy::ConstantArityBits(rng.gen_range(1..=4), rng.gen_range(0..=4)),
         3 => FriReductionStrategy::Fixed(vec![1, 1]),
         4 => FriReductionStrategy::Fixed(vec![2]),
-        _ => FriReductionStrategy::MinSize(Some(2)),
+        5 => FriReductionStrategy::MinSize(Some(rng.gen_range(1..=3))),
+        6 => FriReductionStrategy::MinSize(None),
+        // mixed schedules: consecutive layers of different arity, three and more layers
+        7 => FriReductionStrategy::Fixed([vec![2, 1, 1], vec![1, 2, 1], vec![3, 2, 1], vec![1, 1, 2], vec![1, 3, 1, 1], vec![2, 1, 2]][rng.gen_range(0..6)].clone()),
+        _ => FriReductionStrategy::Fixed((0..rng.gen_range(0..=4)).map(|_| rng.gen_range(1..=3)).collect()),
     };
     config.zero_knowledge = case % 7 == 3;
     config.security_bits = 20;
@@ -187,7 +191,7 @@ where
 
 pub fn run(tier: Tier) -> ! {
     let mut run = Run::new("C16", "exploration", tier);
-    run.rule("proofs over small LDE domains (2^5..2^9 points) with 20..84 query rounds, arity schedules {1,1,..},{2..},{3..},Fixed,MinSize, cap heights 0..3, with/without lookups and blinding, Poseidon and Keccak, so that queries repeat indices and share cosets at every layer (collisions are counted per layer). Oracles: decompress(compress(p)) == p, compress stable, verify_compressed(compress(p)) == verify(p) for honest proofs and for proofs tampered before compression (elements and lists); tampered compressed forms get the verdict of their decompression. distinct = distinct (config, degree, arity schedule).");
+    run.rule("proofs over small LDE domains (2^5..2^9 points) with 20..84 query rounds, arity schedules ConstantArityBits(1..4, 0..4), MinSize(None|1..3), Fixed lists incl. mixed arities over 3-4 layers ([2,1,1],[3,2,1],[1,3,1,1],random), cap heights 0..3, with/without lookups and blinding, Poseidon and Keccak, so that queries repeat indices and share cosets at every layer (collisions are counted per layer). Oracles: decompress(compress(p)) == p, compress stable, verify_compressed(compress(p)) == verify(p) for honest proofs and for proofs tampered before compression (elements and lists); tampered compressed forms get the verdict of their decompression. distinct = distinct (config, degree, arity schedule).");
     let quick = run.quick();
     let n: u64 = run.pick(48, 2000);
     let seed = run.seed;
